@@ -183,7 +183,13 @@ func (env *SpecEnv) eval(e *SExpr) TV {
 		}
 		if strings.HasPrefix(e.Name, "$") {
 			if t, ok := env.st.ghost[e.Name]; ok {
-				return TV{t, nil}
+				return TV{t, vc.ghostTypes[e.Name]}
+			}
+			switch e.Name {
+			case "$spawned", "$fcalls":
+				return TV{IntLit(0), types.Typ[types.Int]}
+			case "$quiet", "$defaultTaken", "$inWorker":
+				return TV{False, types.Typ[types.Bool]}
 			}
 			env.fail(e, "unknown ghost variable")
 		}
@@ -558,6 +564,21 @@ func (env *SpecEnv) evalCall(e *SExpr) TV {
 			a := env.eval(e.Args[0])
 			b := env.eval(e.Args[1])
 			return TV{App("std.strings.TrimSuffix", SStr, a.T, b.T), types.Typ[types.String]}
+		case "chcap", "sent", "recvd", "wgadd", "wgdone", "sentNonNil":
+			x := env.eval(e.Args[0])
+			ref := x.T
+			if name == "wgadd" || name == "wgdone" {
+				// argument is the WaitGroup variable: use its address
+				if e.Args[0].K == "id" {
+					if o := env.lookupObj(e.Args[0].Name); o != nil && vc.boxed[o] {
+						ref = env.st.env[o]
+					}
+				}
+			}
+			if name == "sentNonNil" {
+				return TV{Eq(Select(vc.ghostArr(env.st, name), ref), IntLit(0)), types.Typ[types.Bool]}
+			}
+			return TV{Select(vc.ghostArr(env.st, name), ref), types.Typ[types.Int]}
 		case "prefixof":
 			a := env.eval(e.Args[0])
 			b := env.eval(e.Args[1])
